@@ -90,6 +90,9 @@ fn n_call0(vm: &mut Vm<Host>, f: Value) -> NR {
     vm.auxiliary_data.reentries += 1;
     vm.run_function(f)
 }
+fn n_slen(_vm: &mut Vm<Host>, s: &str) -> NR {
+    Ok(Value::Integer(s.len() as i64))
+}
 fn n_call1(vm: &mut Vm<Host>, f: Value, x: Value) -> NR {
     vm.auxiliary_data.reentries += 1;
     vm.stack_push(x)?;
@@ -106,6 +109,7 @@ pub fn new_vm(cfg: &RunCfg) -> Vm<'static, Host> {
     vm.register_native_function("id", into_f1(n_id)).unwrap();
     vm.register_native_function("mk_str", into_f1(n_mk_str)).unwrap();
     vm.register_native_function("fail", n_fail as fn(&mut Vm<Host>) -> NR).unwrap();
+    vm.register_native_function("slen", into_f1(n_slen)).unwrap();
     vm.register_native_function("call0", into_f1(n_call0)).unwrap();
     vm.register_native_function("call1", into_f2(n_call1)).unwrap();
     vm
